@@ -38,7 +38,7 @@ cat "$LOG.suite" >>"$LOG"; rm -f "$LOG.suite"
 say "demo without change rc=$DEMO_CLEAN_RC (want 0); with change rc=$DEMO_SEED_RC (want !=0); stable suite with change rc=$SUITE_RC (want 0)"
 FIRED=""
 for id in "$@"; do
-  out=$(cd /verif && VERIF_REPO="$WT" ./check "$id" quick 2>&1); rc=$?
+  out=$(cd "${VERIF_CHECK_ROOT:-/verif}" && VERIF_REPO="$WT" ./check "$id" quick 2>&1); rc=$?
   nv=$(echo "$out" | grep -c '^VIOLATION')
   say "check $id rc=$rc violations=$nv"
   echo "$out" | grep 'key=' | cut -c1-240 | head -4 | tee -a "$LOG"
